@@ -181,7 +181,7 @@ def worker_main(argv):
             stats.budget_skipped += 1
             return
         state["n"] += 1
-        if state["n"] % 20 == 0:
+        if state["n"] % getattr(mod, "CLEAR_CACHES_EVERY", 20) == 0:
             try:
                 import jax
 
